@@ -144,7 +144,7 @@ let () =
         let g = bindings gs in
         let e = expr_of (Sexp.parse es) in
         let nd = sort_maplits (erase (node_of (Sexp.parse ns))) in
-        let want = sort_maplits (to_node g e) in
+        let want = sort_maplits (erase (to_node g e)) in
         if nd = want then ["#1"] else ["#0"]
     | _ -> failwith "to_node_check: expected 3 sections");
   (* wf_expr <globals V> ; E -> #0|#1 *)
